@@ -19,7 +19,7 @@ RULE = ("case = (seed): a random spot path (3..40 dates, d = 1..3), strikes / ba
         "distinct seed")
 ASSUMPTIONS = ["LookBack is excluded (its process() raises by design)",
                "purity and identities are exact or 1e-12 relative (pure floating-point formulas)"]
-REQUIRED_COUNTERS = ["purity_checks", "representation_equivalence", "parity_identities", "barrier_identities", "average_bounds", "path_manager_pairs",
+REQUIRED_COUNTERS = ["purity_checks", "representation_equivalence", "parity_identities", "barrier_identities", "average_bounds", "path_manager_pairs", "control_variate_products_on_paths",
                      "default_time_checks", "nth_default_monotone", "notional_linearity"]
 MIN_NONTRIVIAL = {"quick": 100, "thorough": 2000}
 THOROUGH_ROUNDS = 15      # the thorough tier runs the generators this many times (different seeds)
@@ -269,6 +269,45 @@ def run_case(case, R):
             R.violation("path-manager-fine-payoff-depends-on-the-coarse-path", f"{bt.name} barrier {lvl!r}: the multilevel path manager gives (fine, coarse) = "
                         f"{got_pair.tolist()}, the product evaluated on each path alone gives {alone}", wit)
             break
+    # ---- a barrier product used as control variate: the path managers hand the control's value on the path being processed (one
+    #      ControlVariates object over a sequence of paths, then over a coupled pair)
+    from rpylib.montecarlo.path import MCPath
+    from rpylib.product.product import ControlVariates
+
+    bt_cv = [P.BarrierType.DOWN_AND_IN, P.BarrierType.DOWN_AND_OUT, P.BarrierType.UP_AND_IN, P.BarrierType.UP_AND_OUT][int(rng.integers(4))]
+
+    def mk_cv():
+        return Product(payoff_underlying=U.Spot(), payoff=P.Barrier(strike=k, payoff_type=P.PayoffType.CALL, barrier_type=bt_cv, barrier=lvl), maturity=1.0, notional=2.0)
+
+    def alone_cv(pth):
+        fresh = mk_cv()
+        return float(fresh(fresh.underlying_value(times, pth, J[0])))
+
+    main_prod = Product(payoff_underlying=U.Spot(), payoff=P.Vanilla(strike=k, payoff_type=P.PayoffType.CALL), maturity=1.0)
+    cvs_obj = ControlVariates(products=[mk_cv()], prices=[1.0])
+    cvs_obj.initialisation(type(main_prod.payoff_underlying))
+    seq = [path1 * 0.01, path1, path1 * 100.0, path1, coarse_path]
+    try:
+        pm1 = MCPath(deterministic_path=lambda t: np.zeros(np.size(t)), activate_spot_underlying=False)
+        for pth in seq:
+            pm1.set_to_path(StochasticJumpPath(times, pth, np.zeros(times.size)))
+            pm1.process(main_prod, cvs_obj)
+            got_cv = float(np.asarray(pm1.payoff_control_variates, dtype=float).reshape(-1)[0])
+            R.hit("control_variate_products_on_paths")
+            if not (abs(got_cv - alone_cv(pth)) <= 1e-12 * (1 + abs(got_cv))):
+                R.violation("control-variate-value-not-the-value-on-the-processed-path", f"{bt_cv.name} barrier {lvl!r} as control variate: the path manager "
+                            f"stores {got_cv!r} for a path on which the product alone is worth {alone_cv(pth)!r}", wit)
+                break
+        pm2 = MLMCPath(deterministic_path=lambda t: np.zeros((2, np.size(t))), activate_spot_underlying=False)
+        pm2.set_to_path(StochasticJumpPath(times, np.stack([path1, coarse_path]), np.zeros((2, times.size))))
+        pm2.process(main_prod, cvs_obj)
+        got2 = np.asarray(pm2.payoff_control_variates, dtype=float).reshape(-1)
+        R.hit("control_variate_products_on_paths")
+        if not np.allclose(got2, [alone_cv(path1), alone_cv(coarse_path)], rtol=1e-12, atol=0):
+            R.violation("control-variate-value-not-the-value-on-the-processed-path-coupled-pair", f"{bt_cv.name} barrier {lvl!r} as control variate: (fine, coarse) = "
+                        f"{got2.tolist()}, alone {[alone_cv(path1), alone_cv(coarse_path)]}", wit)
+    except Exception as exc:  # noqa: BLE001
+        R.violation("path-manager-raises", f"path manager with a barrier control variate raises {type(exc).__name__}: {exc}", wit)
     # ---- averages -----------------------------------------------------------------------------------------------------------------
     if d == 1:
         for rep in (PR.IDENDITY, PR.LOG):
